@@ -212,6 +212,11 @@ def run_tlc(workdir, module, cfg, workers=None, simulate=None, depth=None, seed=
     if heap:
         java.append("-Xmx" + heap)
     java.append("-Xss64m")
+    # TLC unpacks the standard modules into a fresh directory under java.io.tmpdir on every run: keep that inside
+    # the (self-cleaning) work directory instead of littering /tmp
+    jtmp = os.path.join(workdir, "jtmp")
+    os.makedirs(jtmp, exist_ok=True)
+    java.append("-Djava.io.tmpdir=" + jtmp)
     if dfs:
         java.append("-Dtlc2.tool.queue.IStateQueue=StateDeque")
     cp = "/opt/veriftools/tla/tla2tools.jar:/opt/veriftools/tla/CommunityModules-deps.jar"
